@@ -220,7 +220,7 @@ MANIFESTS = [
 def e2e_cases(ctx, rng, count):
     out = []
     for i in range(count):
-        stream = ["bbb", "tears", "syn1", "syn2", "syn3", "syn4", "syn5", "syn7", "syn8", "syn9", "syn10", "synodd"][i % 12]
+        stream = ["bbb", "tears", "syn1", "syn2", "syn3", "syn4", "syn5", "syn7", "syn8", "syn9", "syn10", "sgodd"][i % 12]
         man, q = MANIFESTS[(i // 5) % len(MANIFESTS)]
         opts = [q] if q else []
         start = rng.choice(["epoch", "year", "month", "today", "explicit"])
@@ -283,7 +283,7 @@ def e2e_cases(ctx, rng, count):
             out.append((other, url.replace(f"/{stream}/", f"/{other}/", 1), now))
     # fixed grid: every synthetic layout in its first pass through the media (loop origin 0), by $Number$ and by
     # $Time$, at two ages – what a served segment carries must not depend on a later wrap having happened
-    for k, stream in enumerate(["syn9", "syn1", "syn8", "syn3", "syn5", "syn2", "syn10", "synodd"]):
+    for k, stream in enumerate(["syn9", "syn1", "syn8", "syn3", "syn5", "syn2", "syn10", "sgodd"]):
         for q in ("", "timeline=1"):
             for age in (7, 16):
                 now = datetime.datetime(2024, 3, 1 + k, 10, 20, 30, 250000 * (age % 4), tzinfo=datetime.timezone.utc)
